@@ -313,14 +313,8 @@ def run(ctx):
     ctx.check(okc, "C09/BOM-BYTES", "Contentline.from_ical decodes and unfolds",
               "Contentline.from_ical must decode with to_unicode and unfold",
               clf.loc(), detail="cls(uFOLD.sub('', to_unicode(ical)))")
-    # uFOLD and FOLD (bytes twin) denote the same language
-    fold_b = rx.repo_rx(m, "parser", "FOLD")
-    same = isinstance(fold_b.pattern, bytes) and \
-        fold_b.pattern.decode("latin-1") == ufold.pattern
-    if not same:
-        a_in_b = all(rx.accepts(rx.Lang(fold_b, "full"), f.encode()) for f in rfc.FOLD_FORMS)
-        same = a_in_b
-    ctx.check(same, "C09/EOL-FOLD", "FOLD bytes twin agrees",
-              "FOLD (bytes) and uFOLD (str) differ", None, detail="same pattern")
+    # uFOLD denotes exactly the fold language; FOLD (bytes twin) agrees
+    from .c06 import unfold_rule
+    unfold_rule(ctx, "C09/EOL-FOLD")
     ctx.floor("C09/EOL-FOLD", 9)
     ctx.floor("C09/CASE-TAINT", 5)
